@@ -71,8 +71,12 @@ def evaluate(P, pid, tagged_cases, workers, acc):
                                    "impl": P.project(case, io)})
         fails = P.spec(case, mo, io)
         if fails:
+            try:
+                tie_ok = P.project(case, io) == P.project(case, P.model_view(case, mo))
+            except Exception:  # noqa: B902
+                tie_ok = False
             violations.append({"tag": tag, "case": case, "fails": fails, "cls": P.classify(case, mo, io, fails),
-                               "impl": io, "model": mo})
+                               "impl": io, "model": mo, "tie_ok": tie_ok})
             continue
         pi, pm = P.project(case, io), P.project(case, P.model_view(case, mo))
         acc["validated"] += 1
@@ -157,6 +161,9 @@ def run(P, pid, tier, seed, skip_gate=False):
     unknown = []
     for v in violations:
         if v["cls"] in known_classes:
+            if not v.get("tie_ok", True):
+                # a listed finding, but the implementation no longer behaves as the model of the code says
+                tie_breaks.append({"tag": v.get("tag"), "case": v["case"], "impl": "see replay", "model": "known-finding class %s" % v["cls"]})
             if v["cls"] not in reported:
                 reported.add(v["cls"])
                 lines.append("KNOWN-FINDING: property=%s %s" % (pid, known_classes[v["cls"]]["what"]))
